@@ -13,6 +13,8 @@ cp -r "$SRC/demo" /tmp/seedeval/demo-$ID-$V
 D=/tmp/seedeval/demo-$ID-$V
 sed -i "s|$ROOT/$ID/v2|$W/v2|g" $D/go.mod 2>/dev/null
 RACE=""; [ -d $D/bin ] && { export PATH=$D/bin:$PATH; chmod +x $D/bin/* 2>/dev/null; RACE="-race"; }
+# a stand-in helper binary shipped with the demo (any sub-directory holding a file named midicat)
+for hb in $(find $D -name midicat -type f 2>/dev/null); do chmod +x $hb; export PATH=$(dirname $hb):$PATH; done
 rundemo() {
   if [ ! -f $D/go.mod ]; then
     # test file meant to live inside a package of the module (C19): copy it next to the decoder package
